@@ -1,6 +1,6 @@
 (* C10 — reserve only ever adds room and never changes contents. *)
 From Coq Require Import ZArith List Bool.
-From Cntgs Require Import Base Layout Mem Vector Spec Rep Refine NeededThm C02Hist.
+From Cntgs Require Import Base Layout Mem Vector Spec Rep Refine NeededThm C02Hist NtRefine C02HistNt.
 Import ListNotations.
 Local Open Scope Z_scope.
 
@@ -48,3 +48,17 @@ Theorem C10_after_reserve_everything_fits : forall L cap budget fixed aid junk b
     Forall2 (fun a t => 0 <= a /\ elem_end L a t <= SA L * v_units v) offs l.
 Proof. exact every_element_inside_block_every_history. Qed.
 Print Assumptions C10_after_reserve_everything_fits.
+
+(* ... and for every well-formed list with a benign tail, non-trivial value types included *)
+Theorem C10_after_reserve_everything_fits_every_list : forall L cap budget fixed aid junk bid tbid h,
+  wf_plist L = true -> tail_ok (SA L) true L = true ->
+  0 <= cap -> 0 <= budget -> Forall (fun c => 0 <= c) fixed ->
+  let v0 := fst (mkvec L cap budget fixed aid junk bid tbid) in
+  let s0 := {| s_cap := cap; s_elems := [] |} in
+  shist_valid L (fixed_counts L fixed) s0 h -> bhist_valid L s0 budget h -> nt_hist_ok L s0 h ->
+  let v := vrun L junk v0 h in
+  let l := s_elems (srun s0 h) in
+  exists offs, RepO L v l offs /\
+    Forall2 (fun a t => 0 <= a /\ elem_end L a t <= SA L * v_units v) offs l.
+Proof. exact every_element_inside_block_every_history_nt. Qed.
+Print Assumptions C10_after_reserve_everything_fits_every_list.
